@@ -573,6 +573,25 @@ def handle (args : List String) (obs : String) : Option Reply := do
       (if !okS then ["[C05] the counter figure under slowest is not that of a sample with the largest duration"] else []) ++
       (if mean ≠ c3.getD 3 0 then ["[C05] the counter mean is not the mean over all recorded samples"] else [])
      else []) ++
+    -- C19/C03: every reported sample used the final sample size; iterations = samples x that size
+    (if !r.isTest ∧ !panicky ∧ !noRun ∧ implStats ≠ "hang" ∧ implStats ≠ "panic" then
+      let perT := (List.range T).map fun t =>
+        let evs := traces.getD t []
+        let evs := if r.cold ∧ t = 0 then stripCal 400 evs else evs
+        let evs := if t = 0 ∧ !o.skipExt then evs.drop 1 else evs
+        (samplesOf evs).map sampleSummary
+      let nums := (((implStats.splitOn " ").find? (·.startsWith "n")).map fun w => ((w.drop 1).toString.splitOn ",").filterMap String.toNat?).getD []
+      let nRec := nums.getD 0 0
+      let iters := nums.getD 1 0
+      let rounds := (perT.map (·.length)).foldl min 100000
+      let ordered := (List.range rounds).flatMap fun k => perT.map fun l => l.getD k (0, 0, 0, 0)
+      let recs := ordered.drop (ordered.length - nRec)
+      if recs.isEmpty ∨ nums.length ≠ 2 ∨ nRec > ordered.length then [] else
+      let sizes := recs.map fun x => x.2.2.1
+      let final := sizes.getLastD 0
+      (if sizes.any (· ≠ final) then ["[C19] the reported samples were not all taken with the final sample size"] else []) ++
+      (if iters ≠ nRec * final then ["[C19][C03] the reported iteration count is not the number of samples times the final sample size"] else [])
+     else []) ++
     -- C01: `_local` forms run on the calling thread only
     (if r.isLocal ∧ (traces.drop 1).any (!·.isEmpty) then ["[C01] a _local form ran on a pool thread"] else []) ++
     -- C03: explicit size, no time limit: calls = s * T * ceil(n/T); test mode: one call per thread; zero cases: none
